@@ -162,6 +162,7 @@ structure DState where
   hdr : List Str := [b "NAME", b "SYNOPSIS", b "COMMANDS", b "REQUIRED PARAMETERS", b "ARGUMENTS", b "OPTIONS"]
   env : Env := []
   rootName : Str := b "prog"
+  exe : Str := []
   floats : List Str := []
   lowers : List (Str × Str) := []     -- graph of strings.ToLower where it is not ASCII lowering
   script : List DefOp := []
@@ -174,6 +175,7 @@ def DState.ext (d : DState) : Ext := {
   toLower := fun s => match lookup s d.lowers with | some l => l | none => asciiLower s
   valueFn := valueFnFixed
   argFn := argFnFixed
+  exeName := d.exe
   hdrName := d.hdr.getD 0 []
   hdrSynopsis := d.hdr.getD 1 []
   hdrCommands := d.hdr.getD 2 []
@@ -217,6 +219,9 @@ def handleLine (d : DState) (line : String) : DState × Option String :=
   | ["root", n] => match unhex n with
     | some n => ({ d with rootName := n }, none)
     | none => (d, some "bad-op")
+  | ["exe", n] => match unhex n with
+    | some n => ({ d with exe := n }, none)
+    | none => (d, some "bad-op")
   | "fok" :: l => match l.mapM unhex with
     | some l => ({ d with floats := d.floats ++ l }, none)
     | none => (d, some "bad-op")
@@ -257,6 +262,19 @@ def handleLine (d : DState) (line : String) : DState × Option String :=
         let rem := match r.remaining with | some l => listOf l | none => "nil"
         ({ d with parsed := some r },
          some s!"P {st} rem={rem} warn={listOf r.warnings} final={pathNames r.st.P r.st.cur} {optsOf r.st.P} {viewsOf r.st.P B.handles}")
+  | ["setvalue", h, name, l] =>
+    -- `SetValue` on the object of handle `h` after a successful parse
+    match d.parsed, d.prog, h.toNat?, unhex name, unlist l with
+    | some r, some (.ok B), some h, some name, some vals =>
+      match r.remaining, B.handles[h]? with
+      | some _, some n =>
+        let (P', out) := setValue d.ext r.st.P n name vals
+        let st := match out with
+          | .ok => "st=ok" | .notFound => "st=notfound" | .error e => "st=err err=" ++ perrOf e
+        ({ d with parsed := some { r with st := { r.st with P := P' } } },
+         some s!"S {st} {optsOf P'} {viewsOf P' B.handles}")
+      | _, _ => (d, some "S none=1")
+    | _, _, _, _, _ => (d, some "S none=1")
   | ["dispatch"] =>
     match d.parsed with
     | none => (d, some "D none")
